@@ -5,13 +5,14 @@
      S N count p_0..p_{N-1}                       select_landmarks        -> LM l.. | OOB idx size
      K N count L l_0..l_{L-1}                     landmarks_okb           -> OKB 0|1
      A N L lm.. dist                               front end               -> D2 .. / MU .. / B ..
-     T N L d lm.. dist V(L*d) lam(d) s(d)          lmds_embed (theorem fn) -> EMB .. | OOB idx size
-     X N L d lm.. dist V(L*d) lam(d) s(d)          lmds_tri_exec (memoised)-> EMB .. | OOB idx size
-     R N L d lm.. dist mu(L) first(L*d) second(d)  triangulate alone       -> EMB .. / FD .. | OOB ..
+     T N L d keep(d) lm.. dist V(L*d) lam(d) s(d)  lmds_embed (theorem fn) -> EMB .. | OOB idx size
+     X N L d keep(d) lm.. dist V(L*d) lam(d) s(d)  lmds_tri_exec (memoised)-> EMB .. | OOB idx size
+     R N L d keep(d) lm.. dist mu(L) first(L*d) second(d)  triangulate alone -> EMB .. / FD .. | OOB ..
+       (keep: 0/1 per selected column = outcome of triangulate's null-eigenvalue comparison)
      I N L d G(L*N) U(L*d) q(d)                    landmark isomap, dense  -> B .. / EMB ..
      PD N d tol Y(N*d) dist                        distances reproduced?   -> PD 0|1|?
      PS N d tol Y(N*d) Z(N*d)                      equal up to col. signs? -> PS 0|1|?
-     PT N L d tol lm.. dist mu(L) YL(L*d) lam(d) EMB(N*d)   triangulation clause -> PT 0|1|?
+     PT N L d tol keep(d) lm.. dist mu(L) YL(L*d) lam(d) EMB(N*d)   triangulation clause -> PT 0|1|?
    Every case's output ends with a line END.  Rationals are printed as [-]hexnum/hexden. *)
 module M = C11_model
 
@@ -115,19 +116,21 @@ let () =
                put_mat "D2" d2; put_row "MU" mu; put_mat "B" b
              | ("T" | "X") as mode ->
                let n = int () in let l = int () in let d = int () in
+               let keep = List.map (fun x -> x <> 0) (ints d) in
                let lm = List.map nat_of_int (ints l) in
                let dist = qmat n n in
                let v = qmat l d in let lam = qs d in let s = qs d in
                let f = if mode = "T" then M.c11_lmds_embed else M.c11_lmds_tri_exec in
-               (match f (nat_of_int n) (nat_of_int d) lm dist v lam s with
+               (match f (nat_of_int n) (nat_of_int d) keep lm dist v lam s with
                 | M.LOk rows -> put_emb "EMB" rows
                 | M.LOOB (_, i, s) -> put_oob i s)
              | "R" ->
                let n = int () in let l = int () in let d = int () in
+               let keep = List.map (fun x -> x <> 0) (ints d) in
                let lm = List.map nat_of_int (ints l) in
                let dist = qmat n n in
                let mu = qs l in let first = qmat l d in let second = qs d in
-               (match M.c11_triangulate (nat_of_int n) (nat_of_int d) lm dist mu first second with
+               (match M.c11_triangulate (nat_of_int n) (nat_of_int d) keep lm dist mu first second with
                 | M.LOk (rows, fd) -> put_emb "EMB" rows; put_mat "FD" fd
                 | M.LOOB (_, i, s) -> put_oob i s)
              | "I" ->
@@ -145,10 +148,11 @@ let () =
                put_ob "PS" (M.c11_same_upto_sign_b (nat_of_int n) (nat_of_int d) tol y z)
              | "PT" ->
                let n = int () in let l = int () in let d = int () in let tol = q () in
+               let keep = List.map (fun x -> x <> 0) (ints d) in
                let lm = List.map nat_of_int (ints l) in
                let dist = qmat n n in
                let mu = qs l in let yl = qmat l d in let lam = qs d in let emb = qmat n d in
-               put_ob "PT" (M.c11_triangulation_b (nat_of_int n) (nat_of_int d) tol lm dist mu yl lam emb)
+               put_ob "PT" (M.c11_triangulation_b (nat_of_int n) (nat_of_int d) tol keep lm dist mu yl lam emb)
              | _ -> Buffer.add_string out "BADCASE\n")
           with Bad m -> Buffer.add_string out ("BADCASE " ^ m ^ "\n")
              | Failure m -> Buffer.add_string out ("BADCASE " ^ m ^ "\n"));
